@@ -419,7 +419,7 @@ def monitor(reqs, replies, roles):
                             delivered_reqs[nm][int.from_bytes(c[hl0: hl0 + ln0], "big", signed=True)] += 1
                 except Exception:  # noqa: BLE001
                     pass
-        if role == "client" and k == "receive" and before["state"] != "CLOSED" and not tail_before:
+        if role == "client" and k == "receive" and before["state"] != "CLOSED" and (not tail_before or q.get("_tail_included")):
             single = q.get("_single")
             units = q.get("_units")
             if single is not None:
@@ -445,7 +445,7 @@ def monitor(reqs, replies, roles):
                     if not is_resp or u["id"] not in prog or ev_of_msgjson(u) == "terminate":
                         refuse = True
                         break
-                    if not (prog[u["id"]] == "search" and u["op"]["k"] in ("searchEntry", "searchRef")):
+                    if not (prog[u["id"]] == "search" and u["op"]["k"] != "searchDone"):       # (same rule as for a message that arrives alone)
                         prog.pop(u["id"])
                 if refuse and not (ok == "ProtocolError" and after["state"] == "CLOSED"):
                     viol("C09", None, "a chunk containing a message that is not a response for an operation in progress did not raise ProtocolError "
@@ -472,7 +472,7 @@ def monitor(reqs, replies, roles):
             if k == "receive" and ok == "msgs":
                 # what arrived, as the BYTES say (message kinds from the library's decode, bind result codes read by the harness's own TLV
                 # reader) when the delivery was one or more complete messages on an empty buffer; else the library's decode
-                seen = [q["_single"]] if q.get("_single") is not None and not tail_before else q.get("_units") if q.get("_units") and not tail_before else None
+                seen = [q["_single"]] if q.get("_single") is not None and not tail_before else q.get("_units") if q.get("_units") and (not tail_before or q.get("_tail_included")) else None
                 if seen is not None and len(seen) == len(out["ms"]):
                     evs = [ev_of_msgjson(m) for m in seen]
                 else:
@@ -741,6 +741,25 @@ def scripted_histories():
     for first in (ext_c, srch_c, bind_c):
         for nid in (1, 0, 5):
             hist(("c", first), ("c", rx(ad_notice(nid))), ("c", ext_c), ("c", rx(ext2)))
+    # responses framed the way Active Directory frames them (30 84 00 00 00 LL ..: four length octets, leading zeros) for operations in progress,
+    # delivered in two reads cut at every offset inside the identifier / length octets: accepted like any other framing of the same responses
+    import ber as _ber4
+
+    def ad_frame(b):
+        n_ = _ber4.parse(bytes(b), deep=False)[0]
+        return bytes([0x30, 0x84]) + len(n_.content).to_bytes(4, "big") + n_.content
+
+    entry1 = pk({"id": 1, "op": {"k": "searchEntry", "name": t("cn=x"), "attrs": []}, "controls": []})
+    ref1 = pk({"id": 1, "op": {"k": "searchRef", "uris": [t("ldap://a")]}, "controls": []})
+    done1 = pk({"id": 1, "op": {"k": "searchDone", "res": res(0)}, "controls": []})
+    stream_ = [ad_frame(x) for x in (entry1, ref1, ext2, done1)]
+    for cut in (1, 2, 3, 4, 5, 6, 7):
+        steps_ = [("c", srch_c), ("c", ext_c)]
+        for m_ in stream_:
+            steps_ += [("c", rx(m_[:cut])), ("c", rx(m_[cut:]))]
+        hist(*(steps_ + [("c", rx(done1)), ("c", ext_c)]))
+        whole = b"".join(stream_)
+        hist(("c", srch_c), ("c", ext_c), ("c", rx(whole[: len(stream_[0]) + cut])), ("c", rx(whole[len(stream_[0]) + cut:])), ("c", ext_c))
     # a closing message (unbind / notice of disconnection) that is NOT the last message of its delivery still closes the session
     unbind0 = pk({"id": 0, "op": {"k": "unbind"}, "controls": []})
     unbind3 = pk({"id": 3, "op": {"k": "unbind"}, "controls": []})
@@ -784,7 +803,8 @@ def run_histories(ctx, prop, n_hist, length, mode="mixed"):
             reqs = gen_history(rng, length, names, mode="joint" if (mode == "joint" or (mode == "mixed" and h % 3 == 0)) else "crafted")
         # annotate single-message deliveries to clients for the C09 monitor
         replies = drive.run_impl(copy.deepcopy(reqs))
-        for q in reqs:
+        atail = {}
+        for q, rep_ in zip(reqs, replies):
             if q["op"] == "call" and q["call"]["k"] == "receive" and q["name"].startswith("c"):
                 try:
                     # a notice of disconnection in Active Directory's framing, recognised from the bytes themselves (own TLV reader)
@@ -831,9 +851,47 @@ def run_histories(ctx, prop, n_hist, length, mode="mixed"):
                             q["_units"] = us
                 except BaseException:  # noqa: BLE001
                     pass
+                # a delivery that COMPLETES one or more messages begun in earlier deliveries (own framing of everything delivered so far): the
+                # completed messages are judged like messages that arrive whole
+                try:
+                    import ber as _bt
+                    data = bytes.fromhex(q["call"]["chunk"])
+                    before_ = atail.get(q["name"], b"")
+                    buf_ = before_ + data
+                    _, pos_, _ = _bt.count_frames(buf_)
+                    if before_ and pos_:
+                        rr = sansldap.asn1.ASN1Reader(buf_[:pos_])
+                        us = []
+                        while rr:
+                            us.append(C.msg_to_json(M.unpack_ldap_message(rr, M.PackingOptions())))
+                        for u, i_ in zip(us, [int.from_bytes(x.kids[0].content, "big", signed=True) for x in _bt.parse(buf_[:pos_])]):
+                            u["id"] = i_
+                        q.pop("_single", None)
+                        q["_units"] = us
+                        q["_tail_included"] = True
+                    atail[q["name"]] = buf_[pos_:] if rep_.get("outcome", {}).get("k") == "msgs" else b""
+                except BaseException:  # noqa: BLE001
+                    atail[q["name"]] = b""
         roles = {names[0]: "client", names[1]: "server"}
         mv = monitor(reqs, replies, roles)
         violations.extend(mv.get(prop, []))
+        if prop == "C10" and len(violations) < 5:
+            # "no wire effect", differentially: the same history WITHOUT its refused send calls must hand the transport exactly the same bytes at
+            # every drain (a refused call that consumed a message id, or left something behind that shows in later bytes, changes them)
+            refused = [i for i, (q, rp) in enumerate(zip(reqs, replies)) if q["op"] == "call" and q["call"]["k"] in SEND_KINDS
+                       and rp.get("outcome", {}).get("k") == "LDAPError"]
+            if refused:
+                hist["refused-calls-removed:histories"] += 1
+                keep = [i for i in range(len(reqs)) if i not in set(refused)]
+                clean_ = [{k: v for k, v in reqs[i].items() if not k.startswith("_")} for i in keep]
+                again = drive.run_impl(copy.deepcopy(clean_))
+                for i, rp2 in zip(keep, again):
+                    q, rp = reqs[i], replies[i]
+                    if q["op"] == "call" and q["call"]["k"] == "drain" and rp.get("outcome", {}).get("b") != rp2.get("outcome", {}).get("b"):
+                        violations.append({"key": None, "what": "a refused send call has a wire effect: without the refused calls the same history hands the "
+                                           "transport different bytes at this drain", "step": i, "history": reqs[: i + 1], "refused_steps": [r for r in refused if r < i],
+                                           "bytes_with_refused_calls": rp.get("outcome", {}).get("b"), "bytes_without": rp2.get("outcome", {}).get("b")})
+                        break
         for q, rep in zip(reqs, replies):
             if q["op"] == "call":
                 hist[q["call"]["k"] + ":" + rep.get("outcome", {}).get("k", "?")] += 1
@@ -845,7 +903,7 @@ def run_histories(ctx, prop, n_hist, length, mode="mixed"):
         all_reqs.extend(reqs)
     disagreements = []
     if ctx.driver_ok:
-        clean = [{k: v for k, v in q.items() if k not in ("_single", "_units", "_ad_notice")} for q in all_reqs]
+        clean = [{k: v for k, v in q.items() if k not in ("_single", "_units", "_ad_notice", "_tail_included")} for q in all_reqs]
         a = drive.run_impl(copy.deepcopy(clean))
         b = drive.run_model(clean)
         pa = [project(prop, drive.norm(x)) for x in a]
